@@ -40,7 +40,19 @@ impl TraitCodegen<'_> {
         // method's `fn` token): the attributes are spanned like the invocation, as a hand-written
         // attribute next to `#[entrait]` would be - not like the option that asks for them, nor like the
         // trait's name, which may both have been passed into a `macro_rules!` macro that holds the rest.
-        let mock_span = proc_macro2::Span::call_site();
+        // A trait that is entraited as written has the user's own receivers, which may come from
+        // another macro than the attribute (the trait handed in as an `$item:item`): the `self` that the
+        // mock macros write has to be that of the receivers.
+        let mock_span = match fn_input_mode {
+            FnInputMode::RawTrait(_) => trait_fns
+                .iter()
+                .find_map(|trait_fn| match trait_fn.sig().inputs.first() {
+                    Some(syn::FnArg::Receiver(receiver)) => Some(receiver.self_token.span),
+                    _ => None,
+                })
+                .unwrap_or_else(proc_macro2::Span::call_site),
+            _ => proc_macro2::Span::call_site(),
+        };
 
         let opt_unimock_attr = match self.opts.default_option(self.opts.unimock, false) {
             SpanOpt(true, _) => Some(attributes::ExportGatedAttr {
